@@ -25,12 +25,15 @@
 package main
 
 import (
+	"crypto/sha256"
+	"encoding/binary"
 	"fmt"
 	"math"
 	"os"
 	"runtime"
 	"runtime/pprof"
 	"sync"
+	"time"
 
 	"github.com/bytom/bytom/p2p/security"
 	"github.com/bytom/bytom/p2p/trust"
@@ -133,15 +136,27 @@ type node struct {
 	ev     uint8
 }
 
-type key struct {
-	now   int32
-	last  int64
-	tbits uint64
-	p     uint32
-	r     ref
-}
+// digest identifies a state: the first 16 bytes of SHA-256 over (clock, lastUnix, transient bits,
+// persistent, reference state).
+type digest [16]byte
 
-func (n *node) key() key { return key{n.now, n.last, math.Float64bits(n.tr), n.p, n.r} }
+func (n *node) digest() (d digest) {
+	var b [80]byte
+	binary.LittleEndian.PutUint32(b[0:], uint32(n.now))
+	binary.LittleEndian.PutUint64(b[4:], uint64(n.last))
+	binary.LittleEndian.PutUint64(b[12:], math.Float64bits(n.tr))
+	binary.LittleEndian.PutUint32(b[20:], n.p)
+	binary.LittleEndian.PutUint32(b[24:], n.r.P)
+	binary.LittleEndian.PutUint32(b[28:], uint32(n.r.N))
+	binary.LittleEndian.PutUint32(b[32:], uint32(n.r.Last))
+	for i := 0; i < maxDepth; i++ {
+		binary.LittleEndian.PutUint32(b[36+8*i:], uint32(n.r.T[i]))
+		binary.LittleEndian.PutUint32(b[40+8*i:], n.r.A[i])
+	}
+	h := sha256.Sum256(b[:76])
+	copy(d[:], h[:16])
+	return
+}
 
 type finding struct {
 	key, what string
@@ -301,9 +316,15 @@ func main() {
 	var classCounts [32]int
 
 	// search runs one breadth-first search: alphabet[d] is the event set used at depth d+1.
+	// chunk buffers are reused for every window of every level (fresh pages are expensive)
+	type out struct {
+		nodes []node
+		c     counters
+	}
+	const window = 512 // frontier states expanded between two merges
 	search := func(im impl, label string, alphabets [][]int) {
 		levels := [][]node{{{parent: -1}}}
-		seen := map[key]struct{}{levels[0][0].key(): {}}
+		seen := map[digest]struct{}{levels[0][0].digest(): {}}
 		history := func(lv int, pi int32, last int) []event {
 			h := []event{events[last]}
 			for l := lv; l > 0; l-- {
@@ -317,76 +338,85 @@ func main() {
 			return h
 		}
 		states := 1
+		outs := make([]out, workers*4)
 		for d := 1; d <= len(alphabets); d++ {
 			cur := levels[d-1]
 			alpha := alphabets[d-1]
 			final := d == len(alphabets)
-			if run.OutOfTime() {
-				run.Capped(fmt.Sprintf("%s %s: time budget reached before depth %d", im.name, label, d))
-				break
+			tLevel := time.Now()
+			var next []node
+			win := window
+			if final {
+				win = window * 64 // nothing is stored at the last level
 			}
-			type out struct {
-				nodes []node
-				c     counters
-			}
-			nchunks := workers * 16
-			if nchunks > len(cur) {
-				nchunks = len(cur)
-			}
-			outs := make([]out, nchunks)
-			var wg sync.WaitGroup
-			jobs := make(chan int, nchunks)
-			for c := 0; c < nchunks; c++ {
-				jobs <- c
-			}
-			close(jobs)
-			for w := 0; w < workers; w++ {
-				wg.Add(1)
-				go func() {
-					defer wg.Done()
-					s := im.fresh()
-					for c := range jobs {
-						lo, hi := c*len(cur)/nchunks, (c+1)*len(cur)/nchunks
-						o := &outs[c]
-						for i := lo; i < hi; i++ {
-							for _, ei := range alpha {
-								child := transition(s, &cur[i], int32(i), ei, &o.c)
-								if !final {
-									o.nodes = append(o.nodes, child)
+			for wlo := 0; wlo < len(cur); wlo += win {
+				if run.OutOfTime() {
+					run.Capped(fmt.Sprintf("%s %s: time budget reached at depth %d", im.name, label, d))
+					break
+				}
+				whi := wlo + win
+				if whi > len(cur) {
+					whi = len(cur)
+				}
+				part := cur[wlo:whi]
+				nchunks := len(outs)
+				if nchunks > len(part) {
+					nchunks = len(part)
+				}
+				var wg sync.WaitGroup
+				jobs := make(chan int, nchunks)
+				for c := 0; c < nchunks; c++ {
+					jobs <- c
+				}
+				close(jobs)
+				for w := 0; w < workers; w++ {
+					wg.Add(1)
+					go func() {
+						defer wg.Done()
+						s := im.fresh()
+						for c := range jobs {
+							lo, hi := c*len(part)/nchunks, (c+1)*len(part)/nchunks
+							o := &outs[c]
+							o.nodes = o.nodes[:0]
+							o.c = counters{}
+							for i := lo; i < hi; i++ {
+								for _, ei := range alpha {
+									child := transition(s, &part[i], int32(wlo+i), ei, &o.c)
+									if !final {
+										o.nodes = append(o.nodes, child)
+									}
 								}
 							}
 						}
-					}
-				}()
-			}
-			wg.Wait()
-			var next []node
-			for c := range outs {
-				o := &outs[c]
-				totalTrans += o.c.transitions
-				totalCmp += o.c.comparisons
-				totalObs += o.c.observations
-				for k, v := range o.c.outcomes {
-					classCounts[k] += v
+					}()
 				}
-				for _, f := range o.c.findings {
-					h := history(d-1, f.parent, f.ev)
-					run.Violation(f.key, fmt.Sprintf("p2p/%s: history %s: %s", im.name, render(h), f.what), map[string]interface{}{"package": im.name, "history": h})
-				}
-				for i := range o.nodes {
-					n := &o.nodes[i]
-					k := n.key()
-					if _, dup := seen[k]; dup {
-						continue
+				wg.Wait()
+				for c := 0; c < nchunks; c++ {
+					o := &outs[c]
+					totalTrans += o.c.transitions
+					totalCmp += o.c.comparisons
+					totalObs += o.c.observations
+					for k, v := range o.c.outcomes {
+						classCounts[k] += v
 					}
-					seen[k] = struct{}{}
-					next = append(next, *n)
-					states++
-					if states%300007 == 1 {
-						run.Sample(map[string]interface{}{"package": im.name, "history": history(d-1, n.parent, int(n.ev)), "lastUnix": n.last, "transient": n.tr, "persistent": n.p, "clock": t0 + int64(n.now)})
+					for _, f := range o.c.findings {
+						h := history(d-1, f.parent, f.ev)
+						run.Violation(f.key, fmt.Sprintf("p2p/%s: history %s: %s", im.name, render(h), f.what), map[string]interface{}{"package": im.name, "history": h})
+					}
+					for i := range o.nodes {
+						n := &o.nodes[i]
+						k := n.digest()
+						if _, dup := seen[k]; dup {
+							continue
+						}
+						seen[k] = struct{}{}
+						next = append(next, *n)
+						states++
+						if states%300007 == 1 {
+							run.Sample(map[string]interface{}{"package": im.name, "history": history(d-1, n.parent, int(n.ev)), "lastUnix": n.last, "transient": n.tr, "persistent": n.p, "clock": t0 + int64(n.now)})
+						}
 					}
 				}
-				o.nodes = nil
 			}
 			if !final {
 				levels = append(levels, next)
@@ -394,6 +424,9 @@ func main() {
 			}
 			if d > reached {
 				reached = d
+			}
+			if os.Getenv("VERIF_TRACE") != "" {
+				fmt.Fprintf(os.Stderr, "%s %s depth %d: %d states expanded in %.1fs, %d new\n", im.name, label, d, len(cur), time.Since(tLevel).Seconds(), len(next))
 			}
 		}
 		totalStates += states
@@ -422,7 +455,7 @@ func main() {
 	run.Set("transitions", totalTrans)
 	run.Set("traces_validated_against_impl", totalCmp)
 	run.Set("max_depth", reached)
-	run.Set("states_rule", "distinct (clock, lastUnix, transient bits, persistent, reference state) reached below the last level of a search; the results of the last level are compared with the reference (transitions, traces_validated) but not stored or counted as states")
+	run.Set("states_rule", "distinct (clock, lastUnix, transient bits, persistent, reference state) tuples (identified by a 128-bit SHA-256 prefix) reached below the last level of a search; the results of the last level are compared with the reference (transitions, traces_validated) but not stored or counted as states")
 	run.Set("observation_increase_returns_undecayed_sum_when_transient_is_zero", totalObs)
 	run.Set("note", "the value returned by increase(persistent, 0, t) is persistent + the UNDECAYED stored transient score (inherited from btcd); it is counted above as an observation, not a violation: int(t) at the same instant follows the rule")
 	run.Assume("amounts stay far below 2^31, so uint32 wrap-around of the score is out of scope")
